@@ -9,10 +9,17 @@ import (
 	"verif/mc"
 )
 
+func worldName() string {
+	if n := os.Getenv("C29_WORLD"); n != "" {
+		return n
+	}
+	return "A"
+}
+
 // every right-typed value the generator builds must conform by the oracle
 func TestGoodsConform(t *testing.T) {
-	w := getWorld()
-	o := newOracle(w.types)
+	w := getWorld(worldName())
+	o := newOracle(w)
 	g := newGoodGen(w, o)
 	ps, skipped := w.params(false)
 	if len(skipped) > 0 {
@@ -57,7 +64,11 @@ func TestGoodsConform(t *testing.T) {
 
 // a slice of the check on a few parameter types (development aid)
 func TestSmoke(t *testing.T) {
-	w := getWorld()
+	if os.Getenv("C29_SMOKE") == "" {
+		t.Skip("development aid: set C29_SMOKE=1 (C29_PARAMS=all for every parameter type, C29_WORLD=B for world B)")
+	}
+	t.Setenv("VERIF_OUT", t.TempDir()) // never touch /verif/evidence from a test
+	w := getWorld(worldName())
 	env := &mc.Env{Prop: "C29", Tier: "quick", Deadline: time.Now().Add(10 * time.Minute), Workers: 4, Root: "/verif", R: mc.NewReport("C29")}
 	ps, _ := w.params(false)
 	want := map[string]bool{"Int": true, "[Int]": true, "C.S": true, "AnyStruct": true, "D.P": true, "{String: Int}": true, "Int?": true, "[C.S; 2]": true,
@@ -65,19 +76,7 @@ func TestSmoke(t *testing.T) {
 	if s := os.Getenv("C29_PARAMS"); s == "all" {
 		want = nil
 	}
-	o := newOracle(w.types)
-	hs := &hostSet{o: o, g: newGoodGen(w, o)}
-	hs.repl = replacements(hs.g, false)
-	for _, c := range configs {
-		h := newHost(w.ledger, c.script, c.vm)
-		hs.hosts[hostIndex(c.script, c.vm)] = h
-		if !c.script {
-			h.overlay = map[string][]byte{}
-			r := newHost(w.ledger, true, c.vm)
-			r.overlay, r.readOnly = h.overlay, true
-			hs.readers[hostIndex(true, c.vm)] = r
-		}
-	}
+	hs := newHostSet(w, false)
 	uni := universe(1)
 	sigs := map[string]int{}
 	first := map[string]string{}
